@@ -93,13 +93,13 @@ type CeremonySim struct {
 	EpochNo  int // epochs driven so far
 	seq      int
 	// hooks
-	OnStep      func(res *BlockResult)          // after every successfully distributed block
-	OnPhase     func(phase string)              // "lottery", "short", "long", "afterlong" (right after the flagged block)
-	BeforeFinal func() bool                     // the next block will finish the validation; false = do not produce it, stop the world
-	OnRefused   func(res *BlockResult)          // a replica refused a block
-	Stopped     bool                            // a block was refused: the world is no longer usable
-	ChainLinks  int                             // transitive delegation shape to build this epoch: 0 none, 2 = A->P->Q, 3 = A->P->Q->R
-	Reliable    map[common.Address]bool         // senders whose txs are never lost or delayed (besides node owners)
+	OnStep      func(res *BlockResult)  // after every successfully distributed block
+	OnPhase     func(phase string)      // "lottery", "short", "long", "afterlong" (right after the flagged block)
+	BeforeFinal func() bool             // the next block will finish the validation; false = do not produce it, stop the world
+	OnRefused   func(res *BlockResult)  // a replica refused a block
+	Stopped     bool                    // a block was refused: the world is no longer usable
+	ChainLinks  int                     // transitive delegation shape to build this epoch: 0 none, 2 = A->P->Q, 3 = A->P->Q->R
+	Reliable    map[common.Address]bool // senders whose txs are never lost or delayed (besides node owners)
 	Included    map[string]int
 	Debug       bool
 	dbgFlips    map[common.Address][]string
@@ -479,9 +479,9 @@ func (s *CeremonySim) PreLottery() bool {
 	if !s.steps(dsr+3, 20*time.Second) {
 		return false
 	}
-	if A != nil && P != nil && Q != nil && R != nil {
+	if A != nil && P != nil && Q != nil {
 		da, dp, dq := s.delegateeOf(A.Addr), s.delegateeOf(P.Addr), s.delegateeOf(Q.Addr)
-		if da != nil && dp != nil && dq != nil && *da == P.Addr && *dp == Q.Addr && *dq == R.Addr {
+		if R != nil && da != nil && dp != nil && dq != nil && *da == P.Addr && *dp == Q.Addr && *dq == R.Addr {
 			pl.Chain3 = []common.Address{A.Addr, P.Addr, Q.Addr, R.Addr}
 		} else if da != nil && dp != nil && *da == P.Addr && *dp == Q.Addr {
 			pl.Chain3 = []common.Address{A.Addr, P.Addr, Q.Addr}
@@ -496,7 +496,6 @@ func (s *CeremonySim) PreLottery() bool {
 // the tx is gossiped to the other replicas.
 func (s *CeremonySim) submitFlips() {
 	w, r, pl := s.W, s.R, s.Plan
-	st := w.View().AppState.State
 	for _, a := range s.identities() {
 		id := w.Identity(a.Addr)
 		if id.State < state.Candidate || id.State == state.Killed || pl.Killed[a.Addr] {
@@ -584,7 +583,6 @@ func (s *CeremonySim) submitFlips() {
 				s.dbgFlips[a.Addr] = append(s.dbgFlips[a.Addr], fmt.Sprintf("n%d@b%d via %s", tx.AccountNonce, s.blockNo, entry.Name))
 			}
 		}
-		_ = st
 	}
 }
 
